@@ -89,6 +89,9 @@ MUTANTS = [
      "                cache.get_all_by_details(self._name, type_, _CLASS_IN)[-1:],\n"),
     ("c18-no-cache-reload-after-wakeup", "C18", "_services/info.py",
      "                    self._load_from_cache(zc, now)\n", "                    pass\n"),
+    ("c10-schedule-keyed-by-instance-only", "C10", "_services/browser.py",
+     "        self._next_scheduled_for_alias[(scheduled_query.name.lower(), scheduled_query.alias)] = scheduled_query",
+     "        self._next_scheduled_for_alias[('', scheduled_query.alias)] = scheduled_query"),
     ("c10-kept-query-keeps-old-ttl", "C10", "_services/browser.py",
      "                current.ttl = int(pointer.ttl) if isinstance(pointer.ttl, float) else pointer.ttl\n"
      "                current.expire_time_millis = pointer.get_expiration_time(100)\n", ""),
